@@ -42,6 +42,31 @@ SUMMARY = {
  'C19-2': 'compile_with_bound bound check off by one on the complement-class branch',
  'C20-1': 'CharSet::union uses other.end for nested intervals',
  'C20-2': 'PartialOrd Greater uses >=: intervals sharing one character ordered',
+ 'C04-3': 'reverse of the repair d2e3fda (take_list indexes directly): minimize panics on 5-state 1-letter DFA (written by the author to show the quick tier guards the repaired defect)',
+ 'C01-r2-1': 'flexible_match accepts an empty leftover for any loops: union(a, a(b+)) loses "a"',
+ 'C01-r2-2': 'is_nullable(Loop) = range.contains(0): (a*+b)+ not nullable (nullable body ignored)',
+ 'C02-r2-1': 'is_nullable(Loop) ignores a nullable body: (a*b*)+ DFA rejects ""',
+ 'C02-r2-2': 'sub_language complement/complement operands swapped (appears during DFA translation of unions of complements)',
+ 'C03-r2-1': 'sub_language complement swap: derivative of not([a-b]x)+not([b-c][x-z]) by b collapses wrongly',
+ 'C03-r2-2': 'class_of_set from end points only: set with both ends in the complementary class spanning whole classes gives Ok',
+ 'C04-r2-1': 'has_active_splitter resumes scan after the current block (refinement stops early)',
+ 'C04-r2-2': 'minimize returns immediately when there is no final state (equivalent states left unmerged)',
+ 'C05-r2-1': 'get_string singleton fast path via collect_chars: (ab)^3 gives ""',
+ 'C05-r2-2': 'sub_language complement swap: inter(union(not a, not [a-z]), "b") reported empty',
+ 'C07-r2-1': 'simplify_set_operation complement-pair test by node kind instead of id parity: inter(Sigma+, X) empty when X is the first term created',
+ 'C07-r2-2': 'diff builds Complement through make(): wrong for odd-id operand',
+ 'C10-r2-1': 'naive_re_search resumes at j after a failed partial match',
+ 'C10-r2-2': 'sub_language complement swap seen through replace_re on a union of complements',
+ 'C12-r2-1': 'merge fast path appends the tail without updating the complement witness',
+ 'C12-r2-2': 'merge_partition_list skips a partition whose interval ends align with the result (gaps ignored)',
+ 'C13-r2-1': 'build reuses the pre-cleanup partition for states with a declared default: wrong successor',
+ 'C13-r2-2': 'add_transition drops a transition with an identical label (different target): conflict accepted',
+ 'C14-r2-1': 'remove_unreachable_states does not follow the default edge of states without explicit transitions',
+ 'C14-r2-2': 'compile_successors shortcut assumes class indices line up when class counts are equal',
+ 'C16-r2-1': 'flexible_match accepts a Sigma^[k,inf) gap when the region has >= k elements, even nullable ones: a.b*.c <= a.Sigma+.c',
+ 'C16-r2-2': 'sub_language complement swap: not(a) <= not([a-z]) claimed',
+ 'C19-r2-1': 'DerivativeIterator expands only nodes with interval classes',
+ 'C19-r2-2': 'compile_with_bound counts on discovery with a sink fast path before the bound check: try_compile(Sigma^3, 4) returns 5 states',
 }
 rows = []
 for d in sorted(glob.glob(os.path.join(VERIF, 'seeded', '*'))):
